@@ -302,11 +302,21 @@ class TerminalDevice(Device):
                 )
 
         if format_string:
-            formatter = PrintUsingFormatter(format_string.value)
-            new_line = printables[-1] not in [comma, semicolon]
+            new_line = not printables or \
+                printables[-1] not in [comma, semicolon]
             printables = [a.value for a in printables
                           if a != semicolon and a != comma]
-            self.impl.terminal_print(formatter.format(printables))
+            try:
+                formatter = PrintUsingFormatter(format_string.value)
+                text = formatter.format(printables)
+            except (RuntimeError, IndexError, TypeError,
+                    ValueError) as e:
+                # wrong number or type of values for the format
+                # string, or a malformed format string
+                raise DeviceError(
+                    error_code=Device.Error.BAD_ARG_VALUE,
+                    error_msg=f'PRINT USING: {e}')
+            self.impl.terminal_print(text)
             if new_line:
                 self.impl.terminal_print('\r\n')
         else:
@@ -555,10 +565,14 @@ class BasePeripheralsImpl:
         if self.cur_segment == 0 and offset == 0x417:
             return self.misc_get_control_keys()
         else:
+            if self.cur_segment:
+                cur_segment = f'{self.cur_segment:04x}'
+            else:
+                cur_segment = 'default_segment'
             raise DeviceError(
                 error_code=Device.Error.BAD_ARG_VALUE,
                 error_msg=(
-                    f'Cannot read memory at: {self.cur_segment:04x}:'
+                    f'Cannot read memory at: {cur_segment}:'
                     f'{offset:04x}'
                 ),
             )
